@@ -400,7 +400,20 @@ func runBatch(rep *lib.Report, batch int, cs []*ccase, onDemand bool) bool {
 		rep.Fail("oracle-run", fmt.Sprintf("oracle failed: %v (%d lines for %d checks)", err, len(lines), len(checks)), nil, true)
 		return false
 	}
+	// failing inputs of the property itself (visit) are reported before model / correspondence differences
+	var orderIdx []int
 	for k, ck := range checks {
+		if ck.kind == "visit" {
+			orderIdx = append(orderIdx, k)
+		}
+	}
+	for k, ck := range checks {
+		if ck.kind != "visit" {
+			orderIdx = append(orderIdx, k)
+		}
+	}
+	for _, k := range orderIdx {
+		ck := checks[k]
 		f := strings.Split(lines[k], "\t")
 		c := ck.c
 		switch ck.kind {
